@@ -329,6 +329,11 @@ def run(prog, tier, seed):
         c01.own_rules(prog, tier, T) +
         T.results(T(c14.rule_k4, prog, adj) if adj else None),
         PROP, 'ownership / provenance of the returned states')
+    # "states are strings, tuples or mixed types": a sort / ordering
+    # comparison of states raises TypeError on such structures
+    from . import c06
+    results = results + adopt(T.results(T(c06.rule_opq1, prog)), PROP,
+                              'no internal error on states of mixed types')
     expl = ('Alias summaries (least fixpoint over the call graph) show that '
             'the object returned by each modelcheck aliases no argument and '
             'no module/class state; every CTL handler and LTL.modelcheck '
